@@ -10,6 +10,7 @@ import (
 	"os"
 	"sync"
 	"syscall"
+	"time"
 
 	"pgregory.net/rapid"
 
@@ -89,6 +90,27 @@ func writeErrOf(class string) error {
 	return errHarnessCut
 }
 
+// C10Stall: the trunk of mux Side pauses once for Ms milliseconds inside frame number Frame
+// (counted over the frames that mux sends): between the header and the payload, or in the
+// middle of the payload. No byte is lost; everything has to be delivered all the same.
+type C10Stall struct {
+	Side  int    `json:"side"`
+	Frame int    `json:"frame"`
+	Where string `json:"where"` // before_payload | mid_payload
+	Ms    int    `json:"ms"`
+}
+
+func genStalls(t *rapid.T) []C10Stall {
+	if rapid.IntRange(0, 3).Draw(t, "stalls") != 0 {
+		return nil
+	}
+	return rapid.SliceOfN(rapid.Custom(func(t *rapid.T) C10Stall {
+		return C10Stall{Side: rapid.IntRange(0, 1).Draw(t, "st_side"), Frame: rapid.IntRange(0, 30).Draw(t, "st_frame"),
+			Where: rapid.SampledFrom([]string{"before_payload", "mid_payload"}).Draw(t, "st_where"),
+			Ms:    rapid.SampledFrom([]int{1, 5, 20, 60}).Draw(t, "st_ms")}
+	}), 1, 2).Draw(t, "stalls")
+}
+
 // faultReq is armed by a writer right before its Write and taken back afterwards.
 type faultReq struct {
 	id    uint32
@@ -109,6 +131,9 @@ type faultConn struct {
 	expectPayload bool
 	failPayload   bool
 	onFatal       func()
+	stalls        []C10Stall // pauses inside a frame (this side's entries)
+	frames        int        // headers that went out
+	stallNow      *C10Stall  // the payload that follows pauses
 }
 
 func (c *faultConn) arm(r *faultReq) {
@@ -137,7 +162,22 @@ func (c *faultConn) Write(p []byte) (int, error) {
 			fatal() // the header of this frame is on the wire already
 			return 0, err
 		}
+		st := c.stallNow
+		c.stallNow = nil
 		c.mu.Unlock()
+		if st != nil {
+			pause := time.Duration(st.Ms) * time.Millisecond
+			if st.Where == "mid_payload" && len(p) >= 2 {
+				n, err := c.Conn.Write(p[:len(p)/2])
+				if err != nil {
+					return n, err
+				}
+				time.Sleep(pause)
+				m, err := c.Conn.Write(p[len(p)/2:])
+				return n + m, err
+			}
+			time.Sleep(pause)
+		}
 		return c.Conn.Write(p)
 	}
 	if len(p) >= muxHdrLen {
@@ -165,6 +205,12 @@ func (c *faultConn) Write(p []byte) (int, error) {
 		if hdrOnly && err == nil && n == len(p) {
 			c.mu.Lock()
 			c.expectPayload = true
+			for i := range c.stalls {
+				if c.stalls[i].Frame == c.frames {
+					c.stallNow = &c.stalls[i]
+				}
+			}
+			c.frames++
 			c.mu.Unlock()
 		}
 		return n, err
